@@ -29,6 +29,7 @@ func concReport(c *CaseCtx, res *concResult, class string) {
 	}
 	c.Stat("final_read_transactions", res.finalReads)
 	c.Stat("merges_before_workload", res.preMerges)
+	c.Stat("many_keys_operations", res.pkeyOps)
 	for i, s := range res.finalBad {
 		if i < 3 {
 			k := strings.Index(s, "|")
@@ -87,7 +88,22 @@ func runC17(c *CaseCtx) {
 	class := "merge-concurrent"
 	cc := concCfg{DBs: []Cfg{cfg}, Goroutines: gs, TxPerG: tier(c.Tier, 240, 500) / gs * 2, Shards: 1 + r.Intn(2), YieldP: []float64{0.05, 0.3}[r.Intn(2)],
 		Merge: 1 + r.Intn(2), KVSetsOnly: true, Class: class}
-	c.Log("goroutines=%d db=%v shards=%d yield=%.2f mergers=%d", gs, cfg, cc.Shards, cc.YieldP, cc.Merge)
+	switch c.Case % 6 {
+	case 1:
+		// every record dead when the first Merge runs, workers queued on the lock meanwhile; with SyncEnable the
+		// Merge also syncs the directory after each removal
+		cc.AllDeadStart = true
+		cc.DBs[0].Sync = true
+		cc.Merge = 1
+	case 4:
+		// long merges: 1200-2000 live keys in segments of 8-16 KB (one Merge scans well over a thousand records)
+		// while the workers overwrite, delete and read single keys
+		cc.PKeys = 1200 + r.Intn(800)
+		cc.DBs[0].Seg = int64(8192 + r.Intn(8192))
+		cc.Merge = 1
+		cc.Goroutines = 4 + r.Intn(5)
+	}
+	c.Log("goroutines=%d db=%v shards=%d yield=%.2f mergers=%d alldead=%v pkeys=%d", cc.Goroutines, cc.DBs[0], cc.Shards, cc.YieldP, cc.Merge, cc.AllDeadStart, cc.PKeys)
 	res := runConc(c, cc)
 	concReport(c, res, class)
 	checkLinearizable(c, res, class)
